@@ -23,6 +23,12 @@ chk("C01", "venum",
     "Trusted: Go crypto/x509 chain verification (used to compute r.TLS.VerifiedChains exactly as crypto/tls does), go-jose, the stated interpretations (password listed => any valid credential; boundary shapes not judged). Levels outside the 12 defined bits are covered by 7 representatives only.",
     "DESIGN.md 3 C01")
 
+chk("C13", "venum",
+    "exhaustive enumeration of an adversarial URL grammar x client configurations on the real CanRedirectToURL and /idp/oauth2/authorize, compared with an independent WHATWG-subset URL parser",
+    "Every string of the grammar scheme x userinfo x host x port x path x query x fragment (~0.99M strings) is submitted, for each of 8 client configurations (domains with/without leading dot, patterns anchored/unanchored, both, neither), to the real CanRedirectToURL; a strided subset plus all ordinary URLs go through the real authorization handler and the emitted Location is resolved the way a browser would. Safety: accepted => https, no query, no '..' segment, browser host equals or is a dot-bounded subdomain of a configured domain, pattern matches; unknown clients never get a code; six ordinary URLs are accepted.",
+    "Trusted: the 150-line WHATWG subset (ASCII hosts; IDNA out of scope); bare '?' and fragments are observed, not judged.",
+    "DESIGN.md 3 C13")
+
 NOT_YET = {
 }
 
